@@ -54,7 +54,7 @@ Definition ex1_fns : list (positive * fnrec) :=
   [ (1, mkFn (Some 20) true [] [] [] []);
     (2, mkFn (Some 11) true [Some 6] [] [2; 8] []) ].
 
-Definition ex1_g : graph := mkGraph (mk_map ex1_nodes) (mk_map ex1_fns) (PositiveMap.empty _) no_pfx id_rank.
+Definition ex1_g : graph := mkGraph (mk_map ex1_nodes) (mk_map ex1_fns) (PositiveMap.empty _) no_pfx id_rank (fun _ => false) (fun _ => true).
 
 Definition ex1_P : preds := mkPreds (fun _ => false) (fun n => Pos.eqb n 5) (fun _ => false) (fun _ => false) (fun _ => false).
 
@@ -106,7 +106,7 @@ Definition ex2_fns : list (positive * fnrec) :=
   [ (1, mkFn (Some 20) true [] [] [] []);
     (2, mkFn (Some 11) true [Some 6; Some 7] [] [5] []) ].
 
-Definition ex2_g : graph := mkGraph (mk_map ex2_nodes) (mk_map ex2_fns) (PositiveMap.empty _) no_pfx id_rank.
+Definition ex2_g : graph := mkGraph (mk_map ex2_nodes) (mk_map ex2_fns) (PositiveMap.empty _) no_pfx id_rank (fun _ => false) (fun _ => true).
 
 Definition ex2_P : preds := mkPreds (fun _ => false) (fun n => Pos.eqb n 9) (fun _ => false) (fun _ => false) (fun _ => false).
 
@@ -165,7 +165,7 @@ Definition ex3_fns : list (positive * fnrec) :=
 Definition ex3_pfx (a b : positive) : bool :=
   Pos.eqb b 1 || Pos.eqb a b.        (* every path has prefix "", and itself *)
 
-Definition ex3_g : graph := mkGraph (mk_map ex3_nodes) (mk_map ex3_fns) (PositiveMap.empty _) ex3_pfx id_rank.
+Definition ex3_g : graph := mkGraph (mk_map ex3_nodes) (mk_map ex3_fns) (PositiveMap.empty _) ex3_pfx id_rank (fun _ => false) (fun _ => true).
 
 Definition ex3_P : preds := mkPreds (fun _ => false) (fun n => Pos.eqb n 5) (fun _ => false) (fun _ => false) (fun _ => false).
 
